@@ -133,6 +133,56 @@ def _arm_result_writer(full):
     rq._writer = _HalfWriter(rq._writer, full)
 
 
+SYNC = os.environ.get("C10_SYNC_DIR", ".")
+
+
+def _pid_dead(pid):
+    try:
+        with open("/proc/%d/stat" % pid) as f:
+            return f.read().rsplit(")", 1)[1].split()[0] in ("Z", "X")
+    except OSError:
+        return True
+
+
+def _slow_load(value):
+    """runs in the PARENT's executor manager thread while it un-pickles this result (result_reader.recv()):
+    tells the victim that the manager is busy now, and stays busy until the victim is dead"""
+    if os.getpid() == PARENT:
+        open(os.path.join(SYNC, "busy"), "w").close()
+        t = time.time()
+        while time.time() - t < 8:
+            try:
+                pid = int(open(os.path.join(SYNC, "dead")).read())
+                if _pid_dead(pid):
+                    break
+            except (OSError, ValueError):
+                pass
+            time.sleep(0.005)
+        time.sleep(0.05)
+    return value
+
+
+class SlowToLoad:
+    """result whose un-pickling keeps the manager thread busy until the victim worker has died"""
+
+    def __init__(self, value):
+        self.value = value
+
+    def __reduce__(self):
+        return (_slow_load, (self.value,))
+
+
+def _die_when_manager_busy(how):
+    t = time.time()
+    while time.time() - t < 8 and not os.path.exists(os.path.join(SYNC, "busy")):
+        time.sleep(0.005)
+    tmp = os.path.join(SYNC, "dead.tmp")
+    with open(tmp, "w") as f:
+        f.write(str(os.getpid()))
+    os.rename(tmp, os.path.join(SYNC, "dead"))
+    die(how)
+
+
 def expected(i):
     return i * i + 1
 
@@ -142,6 +192,10 @@ def task(i, fault, how, arg, sleep):
     ('arg_unpickle' acts through `arg`, a Bomb)."""
     if fault == "task_start":
         die(how)
+    if fault == "die_when_mgr_busy":
+        _die_when_manager_busy(how)
+    if fault == "slow_result":
+        return SlowToLoad((expected(i), os.getpid()))
     if sleep:
         time.sleep(sleep)
     if fault == "mid_task":
